@@ -2,7 +2,7 @@
 (* TLC checks the laws of StyleProp on every (source format, destination format, look) of its pools. *)
 EXTENDS StyleProp, FiniteSets
 ASSUME \A c \in Cases : Stable(c[1], c[2], c[3])
-ASSUME \A f \in Fmts : \A x \in Looks(f) : SameFormat(f, x)
+ASSUME \A f \in Fmts : \A x \in AllLooks(f) : SameFormat(f, x)
 ASSUME \A c \in Cases : Survives(c[1], c[2], c[3])
 \* not vacuous: every conjunct's antecedent occurs, and some look does change
 ASSUME \A f \in Fmts : \A g \in Fmts : \E c \in Cases : c[1] = f /\ c[2] = g
